@@ -648,6 +648,23 @@ impl<'tcx> Cx<'tcx> {
             blocks.push(self.block(d, body, data));
         }
         o.push(("blocks", J::A(blocks)));
+        // promoted constants (e.g. `&0` in assert macros): emitted as small bodies
+        let mut proms = Vec::new();
+        for (_, pb) in tcx.promoted_mir(d).iter_enumerated() {
+            let mut po: Vec<(&'static str, J)> = Vec::new();
+            let mut pl = Vec::new();
+            for (_, decl) in pb.local_decls.iter_enumerated() {
+                pl.push(J::O(vec![("ty", n(self.ty(decl.ty))), ("mut", J::B(decl.mutability.is_mut()))]));
+            }
+            po.push(("locals", J::A(pl)));
+            let mut pbs = Vec::new();
+            for (_, data) in pb.basic_blocks.iter_enumerated() {
+                pbs.push(self.block(d, pb, data));
+            }
+            po.push(("blocks", J::A(pbs)));
+            proms.push(J::O(po));
+        }
+        o.push(("promoted", J::A(proms)));
         Some(J::O(o))
     }
 
